@@ -189,6 +189,61 @@ def c20_std_streams(tier, rng, ctx):
                         "after remove_all nothing is left at the path, not even a link)")]
 
 
+# ---- C06 / C07: a Stdfs handle interleaved with other writers of the same file ---------------------------------------------------
+def hmix_oracle(line, out):
+    """the real filesystem's own rules: an append handle writes at the end of the file as it is then, a write handle truncates at open and
+    writes at its own offset (a gap reads as zero bytes), append_all adds at the end, write_all replaces; content observed after each flush / drop"""
+    f = line.split("\t")
+    mode, old, toks = f[1], bytes.fromhex(f[2]), [t for t in f[3].split(",") if t]
+    data = bytearray(old)
+    pos = 0
+    if mode == "w":
+        data = bytearray()
+    seen = []
+    alive = True
+    for t in toks:
+        k, arg = t[0], bytes.fromhex(t[1:]) if len(t) > 1 else b""
+        if k == "w" and alive:
+            if mode == "a":
+                data += arg
+            else:
+                if pos > len(data):
+                    data += b"\0" * (pos - len(data))
+                data[pos:pos + len(arg)] = arg
+                pos += len(arg)
+        elif k == "b" or k == "A":
+            data += arg
+        elif k == "W":
+            data = bytearray(arg)
+        elif k in ("f", "g"):
+            seen.append("c" + bytes(data).hex())
+        elif k == "d":
+            alive = False
+            seen.append("c" + bytes(data).hex())
+    seen.append("c" + bytes(data).hex())
+    return out == ";".join(seen)
+
+
+def hmix_lines(tier):
+    import itertools
+    hs = []
+    steps = [["w" + b"ta".hex(), "f"], ["w" + "é!".encode().hex(), "f"], ["A" + b"MID".hex()], ["W" + b"x".hex()], ["W" + b"a longer replacement".hex()],
+             ["b" + b"22".hex(), "g"], ["d"]]
+    n = 3 if tier == "quick" else 4
+    for mode in ["a", "w"]:
+        for old in [b"head\n", b""]:
+            for seq in itertools.product(range(len(steps)), repeat=n):
+                toks = [t for i in seq for t in steps[i]]
+                hs.append("\t".join(["hmix", mode, old.hex(), ",".join(toks)]))
+    return hs
+
+
+def hmix_stream(tag, tier):
+    return Stream(tag + "-stdfs-handles-interleaved", "pycheck", hmix_lines(tier), impl_env=c_wrap.sandbox_env(tag), pycheck=hmix_oracle, exhaustive=True,
+                  rule="a Stdfs append / write handle interleaved with append_all, write_all and a second append handle on the same file, every sequence of %d steps; the content "
+                       "after each flush and drop against the byte-vector model (an append always lands at the end of the file as it is then)" % (3 if tier == "quick" else 4))
+
+
 def _extend(mod, pid, extra, note):
     P = dict(mod.PROPS[pid])
     base = P["streams"]
@@ -202,4 +257,6 @@ _extend(c_path, "C05", lambda tier, rng, ctx: [spelling_stream("c05")], "Stdfs s
 _extend(c_mem, "C09", lambda tier, rng, ctx: [copy_link_stream("c09")], "Stdfs side: C02, plus the copy-onto-links stream here")
 _extend(c_mem, "C10", lambda tier, rng, ctx: c10_std_streams(tier, rng), "Stdfs side: the link clauses and removal of links are judged on Stdfs's own answers (dangling links are outside C02's domain)")
 _extend(c_mem, "C20", c20_std_streams, "Stdfs side: C02 runs every macro on both backends inside its domain; here the macros are judged on Stdfs's own answers, dangling links included")
+_extend(c_mem, "C06", lambda tier, rng, ctx: [hmix_stream("c06h", tier)], "Stdfs side: content laws on both backends, and handles interleaved with other writers judged by the byte-vector model")
+_extend(c_mem, "C07", lambda tier, rng, ctx: [hmix_stream("c07h", tier)], "Stdfs handles interleaved with other writers are judged by the byte-vector model (c_std.py)")
 _extend(c_wrap, "C02", lambda tier, rng, ctx: [spelling_stream("c02s"), copy_link_stream("c02c")], "the spelling and copy-onto-links streams are shared with C05 / C09")
